@@ -103,7 +103,10 @@ def probe_alphabet():
                  ('a', 'd/e'), ('c', 'a'), ('a', 'a'), ('inbox', 'new2'),
                  ('a/b', 'b'), ('a', 'é'), ('a', 'x/y'), ('d', 'a'),
                  ('c', 'd'), ('a', 'a\nb'), ('d/e/f', 'a'), ('a', 'A'),
-                 ('cur', 'x'), ('a', 'tmp'), ('a', 'c/cur'), ('a/new', 'y')]:
+                 ('cur', 'x'), ('a', 'tmp'), ('a', 'c/cur'), ('a/new', 'y'),
+                 # a source that is not there, a target whose superiors
+                 # would have to be made
+                 ('zz', 'q/r/s'), ('zz', 'a/x/y'), ('zz', 'zz/y')]:
         M.append(D('RENAME', a, b))
     for n in ['a', 'zz', 'INBOX']:
         M.append(D('UNSUBSCRIBE', n))
